@@ -17,6 +17,7 @@ that every array the library constructs on the way is checked for well-formednes
 """
 import itertools
 
+import contextlib
 import numpy as np
 from hypothesis import strategies as st
 
@@ -197,6 +198,38 @@ def run_ctor(case):
         what = "negative constructor form '%s' dims=%s labels=%s" % (name, dims, labels)
         core.must_raise(f, (Exception,), what, sig=sig)
         sub.append((core.digest([spec, name]), True))
+    # in-place replacements that would leave the array malformed: whatever the library does (refuse, broadcast a single label), the array stays well-formed
+    for i in range(nd):
+        d = dims[i]
+        wrong = list(labels[i]) + [labels[i][0] if labels[i] else 1]
+        if core.label_kind(wrong) != "s" and len(set(wrong)) != len(wrong):
+            wrong = list(labels[i]) + [max(labels[i]) + 1]
+        warr = core.label_array(wrong)
+        inplace = [("axes[name] = Axis of another length", lambda b: b.axes.__setitem__(d, da.Axis(warr.copy(), d))),
+                   ("axes[position] = Axis of another length", lambda b: b.axes.__setitem__(i, da.Axis(warr.copy(), d))),
+                   ("axes[name] = labels of another length", lambda b: b.axes.__setitem__(d, list(wrong))),
+                   ("axes = list of label lists of another length", lambda b: setattr(b, "axes", [list(wrong) if j == i else list(l) for j, l in enumerate(labels)])),
+                   ("axes = Axes of another length", lambda b: setattr(b, "axes", da.Axes([da.Axis(warr.copy() if j == i else core.label_array(l), dd)
+                                                                                            for j, (dd, l) in enumerate(zip(dims, labels))]))),
+                   ("labels = lists of another length", lambda b: setattr(b, "labels", [warr.copy() if j == i else core.label_array(l) for j, l in enumerate(labels)])),
+                   ("set_axis(labels of another length)", lambda b: b.set_axis(warr.copy(), axis=d)),
+                   ("a.<dim> = labels of another length", lambda b: setattr(b, d, warr.copy())),
+                   ("axes[name].values = labels of another length", lambda b: setattr(b.axes[d], "values", warr.copy())),
+                   ("values = array of another shape", lambda b: setattr(b, "values", np.zeros(tuple(len(l) + (1 if j == i else 0) for j, l in enumerate(labels)))))]
+        if nd >= 2:
+            inplace.append(("dims = fewer names", lambda b: setattr(b, "dims", tuple(dims[:-1]))))
+        for name, g in inplace:
+            b = da.DimArray(vals.copy(), axes=[da.Axis(x.copy(), dd) for dd, x in zip(dims, larr)])
+            what = "in-place '%s' on dim %s dims=%s labels=%s" % (name, d, dims, labels)
+            try:
+                with contextlib.redirect_stdout(core._DEVNULL):
+                    g(b)                      # refused with an exception, or accepted in a way that keeps the array well-formed
+            except Exception:
+                pass
+            # (the statement asks for well-formedness, not for atomicity: e.g. a refused `values =` may already have widened the dtype)
+            check(len(b.axes) == b.values.ndim and all(ax.size == n for ax, n in zip(b.axes, b.values.shape)) and len(set(b.dims)) == len(b.dims),
+                  "array-malformed-after-refused-replacement", {"what": what, "now": core.brief(b)}, sig)
+            sub.append((core.digest([spec, name, i]), True))
     drain("constructor forms", sig)
     return {"classes": ["ctor:positive"] + (["ctor:negative"] if neg else []), "sub": sub}
 
